@@ -1,6 +1,7 @@
 package specmatch
 
 import (
+	"sort"
 	"fmt"
 	"go/ast"
 	"go/constant"
@@ -81,6 +82,12 @@ type rec struct {
 	targets []GoTarget
 	symRepr map[string]string // Go Module<Name> -> canonical token
 	symFix  map[string]int    // 1 prefix, 2 infix
+	// placement of lifted reads: a read belongs to the statement that follows it in the same list
+	depth     int
+	cur       map[int]ast.Stmt
+	tempDepth map[types.Object]int
+	tempOwner map[types.Object]ast.Stmt
+	hoisted   []string
 }
 
 func (r *rec) bad(n ast.Node, format string, args ...any) {
@@ -116,6 +123,11 @@ func (r *rec) reset(prefix string) {
 	r.refArgs = map[types.Object]string{}
 	r.anchors = map[types.Object]bool{}
 	r.targets = nil
+	r.depth = 0
+	r.cur = map[int]ast.Stmt{}
+	r.tempDepth = map[types.Object]int{}
+	r.tempOwner = map[types.Object]ast.Stmt{}
+	r.hoisted = nil
 }
 
 func (r *rec) callee(call *ast.CallExpr) *types.Func {
@@ -367,6 +379,9 @@ func (r *rec) expr(e ast.Expr) []string {
 		o := r.info.ObjectOf(x)
 		if t, ok := r.temps[o]; ok {
 			r.uses[o]++
+			if d, known := r.tempDepth[o]; known && (r.depth != d || (r.cur[d] != r.tempOwner[o] && !isReadTempDecl(r.cur[d]))) {
+				r.hoisted = append(r.hoisted, strings.Join(t, " "))
+			}
 			return t
 		}
 		if r.anchors[o] {
@@ -800,10 +815,27 @@ func (r *rec) selObj(e ast.Expr) types.Object {
 	return nil
 }
 
+// isReadTempDecl: `var T tla.Value` (no initialiser, not err) starting a lifted read triple.
+func isReadTempDecl(s ast.Stmt) bool {
+	ds, ok := s.(*ast.DeclStmt)
+	if !ok {
+		return false
+	}
+	gd, ok := ds.Decl.(*ast.GenDecl)
+	if !ok || gd.Tok != token.VAR || len(gd.Specs) != 1 {
+		return false
+	}
+	vs, ok := gd.Specs[0].(*ast.ValueSpec)
+	return ok && len(vs.Names) == 1 && len(vs.Values) == 0 && vs.Names[0].Name != "err"
+}
+
 func (r *rec) stmts(list []ast.Stmt) []string {
 	var out []string
+	r.depth++
+	defer func() { r.depth-- }()
 	for i := 0; i < len(list); i++ {
 		s := list[i]
+		r.cur[r.depth] = s
 		switch x := s.(type) {
 		case *ast.DeclStmt:
 			gd := x.Decl.(*ast.GenDecl)
@@ -835,6 +867,15 @@ func (r *rec) stmts(list []ast.Stmt) []string {
 				toks := []string{r.handleName(call.Args[0], call)}
 				toks = append(toks, r.indices(call.Args[1])...)
 				r.temps[obj] = toks
+				// the statement this read was lifted out of: the next statement of this list that is not itself a lifted read
+				j := i + 3
+				for j+2 < len(list) && isReadTempDecl(list[j]) {
+					j += 3
+				}
+				r.tempDepth[obj] = r.depth
+				if j < len(list) {
+					r.tempOwner[obj] = list[j]
+				}
 				i += 2
 			case vs.Type != nil:
 				// with x = e :  var x tla.Value = e ; _ = x
@@ -1093,6 +1134,11 @@ func (r *rec) section(name string, lit *ast.FuncLit) (sec *GoSection) {
 		if r.uses[o] == 0 {
 			sec.Stream = append(sec.Stream, "EXTRA-READ", strings.Join(r.temps[o], " "))
 		}
+	}
+	sort.Strings(r.hoisted)
+	for _, h := range r.hoisted {
+		// a resource read performed earlier than the statement that needs it (e.g. above the branch that uses it)
+		sec.Stream = append(sec.Stream, "MISPLACED-READ", h)
 	}
 	return
 }
